@@ -36,6 +36,8 @@ RULE_DOC = {
     'R12': 'tail expression `E.iter().any(|v| C)` -> `for i in 0..E.len() { let v = &E[i]; if C { return true } } false`',
     'R13': '`for x in &mut E {` -> `for i in 0..E.len() { let x = &mut E[i];` (std: iter_mut visits the elements in index order)',
     'R17': '`let v: Vec<T> = E.iter().map(|&x| F).collect();` -> `let mut v = Vec::new(); for i in 0..E.len() { let x = E[i]; v.push(F); }`',
+    'R20': '`M.entry(K).or_default().push(V);` -> `entry_or_default_push(&mut M, K, V);` - the three chained std calls are outlined into a helper whose body is the same chain; its contract (append V to the bucket of K, creating the bucket if absent; other keys untouched) is ASSUMED (std HashMap entry API), listed under trusted',
+    'R21': '`E.iter().filter(|t| P).cloned().collect()` (block tail) -> `{ let src__ = &E; let mut out__: Vec<T> = Vec::new(); for t in src__.iter() { if P { out__.push(t.clone()); } } out__ }` (P verbatim; `t` is `&T` instead of `&&T`, auto-deref makes no difference for method calls)',
     'R19': 'tail `E.into_iter().map(f).collect()` (f a function path) -> `let src = E; let mut out = Vec::new(); for i in 0..src.len() { out.push(f(src[i])); } out`',
     'R18': 'tail `(0..n).map(|i| F).collect()` -> `let mut out = Vec::new(); for i in 0..n { out.push(F); } out`',
     'R16': '`let m = E.iter().copied().max().unwrap_or(d);` -> `let mut o = None; for i in 0..E.len() { o = opt_max(o, E[i]) }; let m = o.unwrap_or(d);` (std: the maximum, None when empty; opt_max is a verified helper)',
@@ -411,6 +413,62 @@ class Piece:
                % (elem_ty, ind, fm.group(1), mm.group(1), ind, fm.group(2).strip(), ind, ind))
         self.text = text[:ts] + new + text[end:]
         self._fired('R18', '(0..n).map(..).collect() tail -> loop + push')
+        return self
+
+    def R20(self):
+        """`M.entry(K).or_default().push(V);` -> `entry_or_default_push(<&mut M | M>, K, V);` (all sites)"""
+        n = 0
+        while True:
+            text = self.text
+            code = scan(text)
+            hit = None
+            for m in re.finditer(r'(?<![\w\.])([\w\.]+?)(?=\s*\.entry\()', text):
+                if not code[m.start()]:
+                    continue
+                calls, end = self._chain(text, code, m.end())
+                if [c[0] for c in calls] == ['entry', 'or_default', 'push'] and calls[1][1].strip() == '' and text[end:end + 1] == ';':
+                    hit = (m, calls, end)
+                    break
+            if not hit:
+                break
+            m, calls, end = hit
+            recv = m.group(1)
+            arg0 = '&mut ' + recv if recv.startswith('self.') else recv
+            self.text = text[:m.start()] + 'entry_or_default_push(%s, %s, %s)' % (arg0, calls[0][1].strip(), calls[2][1].strip()) + text[end:]
+            n += 1
+        if not n:
+            raise LostAnchor('rule R20 in %s: no `.entry(K).or_default().push(V);` chain' % self.label)
+        self._fired('R20', '%d site(s)' % n)
+        return self
+
+    def R21(self, elem_ty):
+        """`E.iter().filter(|t| P).cloned().collect()` -> block with loop + push (all sites; E is a path or a single call)"""
+        n = 0
+        while True:
+            text = self.text
+            code = scan(text)
+            hit = None
+            for m in re.finditer(r'(?<![\w\.])((?:[\w:]+\([^()]*\))|(?:[\w\.]+?))(?=\s*\.iter\(\)\s*\.filter\()', text):
+                if not code[m.start()]:
+                    continue
+                calls, end = self._chain(text, code, m.end())
+                if [c[0] for c in calls] == ['iter', 'filter', 'cloned', 'collect']:
+                    hit = (m, calls, end)
+                    break
+            if not hit:
+                break
+            m, calls, end = hit
+            fm = re.match(r'\s*\|(\w+)\|\s*(.*)$', calls[1][1], re.S)
+            if not fm:
+                raise LostAnchor('rule R21 in %s: closure shape' % self.label)
+            ind = re.match(r'[ \t]*', text[_line_start(text, m.start()):]).group(0)
+            new = ('{\n%s    let src__ = &%s;\n%s    let mut out__: Vec<%s> = Vec::new();\n%s    for %s in src__.iter() {\n%s        if %s { out__.push(%s.clone()); }\n%s    }\n%s    out__\n%s}'
+                   % (ind, m.group(1), ind, elem_ty, ind, fm.group(1), ind, fm.group(2).strip(), fm.group(1), ind, ind, ind))
+            self.text = text[:m.start()] + new + text[end:]
+            n += 1
+        if not n:
+            raise LostAnchor('rule R21 in %s: no `.iter().filter(|t| P).cloned().collect()` chain' % self.label)
+        self._fired('R21', '%d site(s)' % n)
         return self
 
     def R19(self, elem_ty):
